@@ -80,6 +80,14 @@ def run(chk, replay=None):
         n = rng.choice([2, 2, 3, 5, 12, 60, 200])
         hot = [rng.randrange(NB) for _ in range(rng.randint(1, 6))]
         bins = [rng.choice(hot) if rng.random() < 0.6 else rng.randrange(NB) for _ in range(n)]
+        if t in (12, 14, 17):
+            # one forecast many orders of magnitude below the other in every bin (ratios 1e-16 .. 1e-8): the log-rate differences are
+            # differences of logarithms, whatever the ratio
+            style = 'wide'
+            b = [10 ** rng.uniform(-2, 1) for _ in range(NB)]
+            a = [x * 10 ** rng.uniform(-16, -8) for x in b]
+            if t == 14:
+                a, b = b, a
         if t in (6, 7, 11):
             # the smallest sample the W-test is defined for: exactly ONE log-rate difference distinct from the null median (one
             # exchanged pair of dyadic rates, so the totals are equal and the median is exactly 0; the other events sit in bins
